@@ -480,10 +480,21 @@ pub fn dump(c: &Composer, r: &Run) -> String {
     format!("G {} W {} P {} R {}", gs.join("|"), ws.join(","), ps.join(","), rs.join(","))
 }
 
+thread_local! {
+    /// program used by `ProgCircuit::default()` (the `Circuit` trait compiles / compresses the default instance)
+    pub static DEFAULT_SRC: std::cell::RefCell<String> = const { std::cell::RefCell::new(String::new()) };
+}
+
 /// A circuit that replays a program.
-#[derive(Default, Clone)]
+#[derive(Clone)]
 pub struct ProgCircuit {
     pub src: String,
+}
+
+impl Default for ProgCircuit {
+    fn default() -> Self {
+        ProgCircuit { src: DEFAULT_SRC.with(|s| s.borrow().clone()) }
+    }
 }
 
 impl Circuit for ProgCircuit {
